@@ -25,9 +25,14 @@
      - a mutant the specification types and Rust accepts:  SKIP mutant-well-typed
      - on accept: every annotation is present and the checked definitions erase to the parsed ones
        up to the order of clauses, else  VIOL class=annotation …
-   Every VIOL line carries corr=ok|diff (whether model and implementation agreed on that case). *)
+   Every VIOL line carries corr=ok|diff (whether model and implementation agreed on that case).
+   Domain of the theorems about programs with type parameters (Props/C15.v, round 2): every compared
+   input must have identifier-like type / constructor / destructor names (Sem.FunNames.prog_names_ok),
+   else  BAD names-not-identifier-like;  the OK line says dt-wf / dt-ill (Sem.FunNames.decl_types_wf:
+   the guard of the soundness theorem, the complement of the known finding). *)
 From Coq Require Import List ZArith NArith String Bool.
 From SCC Require Import Base.Sexp Lang.SynUtil Lang.FunSyn Model.RunBase Model.Check Sem.FunTyping Sem.FunErase.
+From SCC Require Import Sem.FunNames.
 Import ListNotations.
 Open Scope string_scope.
 
@@ -69,6 +74,7 @@ Definition check_case (i r : sexp) : verdict :=
       match g_fprog ps with
       | None => VBad ("input unreadable " ++ show_bad (first_bad readable_fun ps))
       | Some p =>
+          if negb (prog_names_ok p) then VBad "names-not-identifier-like (outside the domain of the C15 theorems)" else
           let rr := match r with
                     | L [A "ok"; q] => match g_fcprog q with Some q => Some (RAcc q) | None => None end
                     | L [A "err"; A v] => Some (RRej v)
@@ -102,7 +108,8 @@ Definition check_case (i r : sexp) : verdict :=
               | Some (VBad w), _ => VBad w
               | _, inr (a, b) => VDiff a b
               | Some v, inl _ => v
-              | None, inl t => VOk ("nt " ++ tag ++ " " ++ t ++ (if spec then " spec-wt" else " spec-ill") ++ prog_tags p)
+              | None, inl t => VOk ("nt " ++ tag ++ " " ++ t ++ (if spec then " spec-wt" else " spec-ill")
+                                     ++ (if decl_types_wf (tdecls (fpdecls p)) then " dt-wf" else " dt-ill") ++ prog_tags p)
               end
           end
       end
